@@ -18,18 +18,18 @@ Proof.
     rewrite Forall_forall in HL. apply HL. exact Hr.
 Qed.
 
-Lemma check_nnls_sound n W b alpha L x rn :
+Lemma check_nnls_sound rel n W b alpha L x rn :
   let Lm := tikhonov_or_identity n L in
   let C := stackC W alpha Lm in
   let d := stackd b n in
   length b = length W -> Forall (fun c => length c = n) W ->
   Forall (fun c => length c = n) Lm -> length Lm = n ->
-  check_nnls n W b alpha L x rn = true ->
+  check_nnls rel n W b alpha L x rn = true ->
   Forall (Qle 0) x /\
-  Qabs (rn * rn - tikhonov_objective W b alpha Lm x) <= rel_kkt * obj_scale C d x /\
+  Qabs (rn * rn - tikhonov_objective W b alpha Lm x) <= rel * obj_scale C d x /\
   forall y, length y = n -> Forall (Qle 0) y ->
-    tikhonov_objective W b alpha Lm x - 2 * (rel_kkt * grad_scale C d x) * Qsum y
-      - 2 * inject_Z (Z.of_nat n) * (rel_kkt * obj_scale C d x)
+    tikhonov_objective W b alpha Lm x - 2 * (rel * grad_scale C d x) * Qsum y
+      - 2 * inject_Z (Z.of_nat n) * (rel * obj_scale C d x)
     <= tikhonov_objective W b alpha Lm y.
 Proof.
   intros Lm C d Hb HW HL HLn H. subst C d Lm. unfold check_nnls in H.
@@ -46,16 +46,16 @@ Proof.
     rewrite Hy in Ey. rewrite Ex, Ey in Hopt. exact Hopt.
 Qed.
 
-Lemma check_lstsq_sound n W b alpha L x res :
+Lemma check_lstsq_sound rel n W b alpha L x res :
   let Lm := tikhonov_or_identity n L in
   let C := stackC W alpha Lm in
   let d := stackd b n in
   length b = length W -> Forall (fun c => length c = n) W ->
   Forall (fun c => length c = n) Lm -> length Lm = n ->
-  check_lstsq n W b alpha L x res = true ->
-  (forall r, res = [r] -> Qabs (r - tikhonov_objective W b alpha Lm x) <= rel_kkt * obj_scale C d x) /\
+  check_lstsq rel n W b alpha L x res = true ->
+  (forall r, res = [r] -> Qabs (r - tikhonov_objective W b alpha Lm x) <= rel * obj_scale C d x) /\
   forall y, length y = n ->
-    tikhonov_objective W b alpha Lm x - 2 * (rel_kkt * grad_scale C d x) * Qsum (map Qabs (vsub y x))
+    tikhonov_objective W b alpha Lm x - 2 * (rel * grad_scale C d x) * Qsum (map Qabs (vsub y x))
     <= tikhonov_objective W b alpha Lm y.
 Proof.
   intros Lm C d Hb HW HL HLn H. subst C d Lm. unfold check_lstsq in H.
@@ -72,9 +72,9 @@ Proof.
     rewrite Hy in Ey. rewrite Ex, Ey in Hopt. exact Hopt.
 Qed.
 
-Lemma check_svd_sound W b x :
+Lemma check_svd_sound rel W b x :
   length b = length W -> Forall (fun c => length c = length x) W ->
-  check_svd W b x = true ->
+  check_svd rel W b x = true ->
   forall y, length y = length x ->
-    obj W b x - 2 * (rel_svd * grad_scale W b x) * Qsum (map Qabs (vsub y x)) <= obj W b y.
+    obj W b x - 2 * (rel * grad_scale W b x) * Qsum (map Qabs (vsub y x)) <= obj W b y.
 Proof. intros Hb HW H. exact (normal_eq_sufficient W b x _ Hb HW H). Qed.
